@@ -273,7 +273,7 @@ func ToDotPath(path []any) string {
 			b.WriteByte(']')
 		case string:
 			switch {
-			case i == 0:
+			case i == 0 && !needsBracketNotation(v):
 				b.WriteString(v)
 			case needsBracketNotation(v):
 				b.WriteString(`["`)
